@@ -94,6 +94,9 @@ func NewExec(w *World, fn *ssa.Function, fc *FuncContract, name string) *Exec {
 		otherLoops: map[*ssa.Function]map[*ssa.BasicBlock]*loopInfo{}, specDeclared: map[string]bool{}, entryParams: map[*ssa.Parameter]SymVal{},
 		heapSorts: map[string]string{}, implLocal: map[string]types.Type{}}
 	x.regStdHeaps()
+	for _, l := range w.CS.RawSMT {
+		x.D.Raw(l)
+	}
 	return x
 }
 
@@ -311,7 +314,11 @@ func SolveAll(r *Runner, results []*FuncResult) {
 					b.WriteString("(assert (not ")
 					b.WriteString(vc.Goal.S)
 					b.WriteString("))\n(check-sat)\n")
-					vc.Res = r.Solve(b.String())
+					if o.Expect == "sat" {
+						vc.Res = r.SolveT(b.String(), 1500, true)
+					} else {
+						vc.Res = r.Solve(b.String())
+					}
 					if vc.Res.Status == "sat" && o.Expect == "" {
 						m := r.Solve(b.String() + "(get-model)\n")
 						vc.Model = m.Output
